@@ -25,6 +25,10 @@ Definition sorted_everywhere (pkg ty : string) (l : list site) : bool :=
 Definition never_ranged_unsorted (pkg ty : string) (l : list site) : bool :=
   forallb (fun s => negb (over pkg ty s) || syn_insensitive (s_syn s)) l.
 
+(** no order-sensitive range over any Go map in that package *)
+Definition no_sensitive_range (pkg : string) (l : list site) : bool :=
+  forallb (fun s => negb (String.eqb (s_pkg s) pkg) || syn_insensitive (s_syn s)) l.
+
 Definition ts_in (pkg : string) (u : ts_use) : bool := String.eqb (t_pkg u) pkg.
 
 (** goroutines that FEED a channel.  A consensus-scope function with a send inside a go statement is a producer; it is
@@ -59,4 +63,5 @@ Definition cfg_of_facts (sites : list site) (uses : list ts_use) (concs : list c
     (sorted_everywhere "x/common/omap" "map[K]V" sites)
     (never_ranged_unsorted "x/oracle/keeper" "map[asset.Pair]types.ExchangeRateVotes" sites)
     (never_ranged_unsorted "x/oracle/keeper" "map[asset.Pair]types.ExchangeRateVotes" sites)
-    (range_blocking concs).
+    (range_blocking concs)
+    (no_sensitive_range "x/devgas/v1/ante" sites).
